@@ -1,0 +1,83 @@
+//! Verification hooks (feature `verif-hooks`): an in-process handle on the zone store.
+//!
+//! Only compiled with the `verif-hooks` feature; adds code, changes none.
+
+use std::sync::Arc;
+
+use hickory_server::proto::{
+    op::Message,
+    rr::{Name, RecordType},
+};
+use iroh_dns::pkarr::SignedPacket;
+use n0_error::{Result, StdResultExt};
+
+use crate::{
+    config::StoreConfig,
+    metrics::Metrics,
+    store::{PacketSource, ZoneStore},
+    util::PublicKeyBytes,
+};
+
+/// The zone store (persistent packet store plus answer cache) the servers use, opened on a
+/// caller-supplied database.
+#[derive(Debug, Clone)]
+pub struct ZoneStoreHandle {
+    inner: ZoneStore,
+}
+
+impl ZoneStoreHandle {
+    /// Opens the zone store on `db`. Must be called from within a tokio runtime.
+    pub fn open(db: redb::Database, config: StoreConfig) -> Result<Self> {
+        let inner = ZoneStore::verif_open(db, config.into(), Arc::new(Metrics::default()))?;
+        Ok(Self { inner })
+    }
+
+    /// Opens the zone store on a fresh in-memory database.
+    pub fn in_memory(config: StoreConfig) -> Result<Self> {
+        let db = redb::Database::builder()
+            .create_with_backend(redb::backends::InMemoryBackend::new())
+            .anyerr()?;
+        Self::open(db, config)
+    }
+
+    /// `ZoneStore::insert`: returns whether the packet produced an update.
+    pub async fn insert(&self, packet: SignedPacket) -> Result<bool> {
+        self.inner.insert(packet, PacketSource::PkarrPublish).await
+    }
+
+    /// `ZoneStore::get_signed_packet` for the key with these bytes.
+    pub async fn get_signed_packet(&self, key: &[u8; 32]) -> Result<Option<SignedPacket>> {
+        self.inner
+            .get_signed_packet(&PublicKeyBytes::new_unchecked(*key))
+            .await
+    }
+
+    /// `ZoneStore::resolve` for `name` (relative to the key's zone, labels separated by dots,
+    /// empty for the zone apex) and the record type with code `rtype`.
+    ///
+    /// The resolved record set, if any, is returned as the answer section of a DNS message in
+    /// wire format.
+    pub async fn resolve_wire(
+        &self,
+        key: &[u8; 32],
+        name: &str,
+        rtype: u16,
+    ) -> Result<Option<Vec<u8>>> {
+        let name = Name::from_labels(name.split('.').filter(|l| !l.is_empty()).map(str::as_bytes))
+            .anyerr()?;
+        let rset = self
+            .inner
+            .resolve(
+                &PublicKeyBytes::new_unchecked(*key),
+                &name,
+                RecordType::from(rtype),
+            )
+            .await?;
+        let Some(rset) = rset else {
+            return Ok(None);
+        };
+        let mut message = Message::query();
+        message.add_answers(rset.records_without_rrsigs().cloned());
+        Ok(Some(message.to_vec().anyerr()?))
+    }
+}
